@@ -15,7 +15,12 @@ Proof. unfold last_name. apply last_last. Qed.
 Lemma last_name_path t i : last_name (lb_path t i) = lb_filename t i.
 Proof. apply last_name_snoc. Qed.
 Lemma last_name_tmp t i : last_name (lb_tmp_path t i) = lb_filename t i ++ lb_tmp_suffix.
-Proof. apply last_name_snoc. Qed.
+Proof. unfold lb_tmp_path. rewrite app_assoc. apply last_name_snoc. Qed.
+
+(* the regenerated suffix makes the temporary name unparseable whatever directory it is in:
+   neither 64 nor 6 ("config") characters plus the suffix give 64 characters *)
+Lemma tmp_suffix_ok : (length lb_tmp_suffix <> 0 /\ length lb_tmp_suffix <> 58)%nat.
+Proof. split; vm_compute; discriminate. Qed.
 
 Lemma length_filename t i : wf_id i -> length (lb_filename t i) = 64%nat \/ length (lb_filename t i) = 6%nat.
 Proof. intro H. destruct t; cbn [lb_filename]; try (left; apply length_to_hex; assumption). right; reflexivity. Qed.
@@ -44,7 +49,7 @@ Proof.
   intros (t & i & Hi & Hp) (t' & i' & Hi' & Hq) Hr E.
   destruct rest as [|r0 rest]; [congruence|].
   destruct Hp as [-> | ->], Hq as [-> | ->];
-    destruct t, t'; unfold lb_path, lb_tmp_path, lb_base_path, lb_filename in E; cbn [app] in E;
+    destruct t, t'; unfold lb_path, lb_tmp_path, lb_tmp_dir, lb_base_path, lb_filename in E; cbn [app] in E;
     inversion E; try closed_neq;
     repeat match goal with H : _ ++ _ :: _ = [] |- _ => apply app_eq_nil in H; destruct H; discriminate
                      | H : [] = _ ++ _ :: _ |- _ => symmetry in H; apply app_eq_nil in H; destruct H; discriminate end;
@@ -55,7 +60,7 @@ Lemma tmp_ne_final t i t' i' : wf_id i -> wf_id i' -> lb_tmp_path t i <> lb_path
 Proof.
   intros Hi Hi' E. apply (f_equal last_name) in E. rewrite last_name_tmp, last_name_path in E.
   apply (f_equal (@length N)) in E. rewrite app_length in E.
-  change (length lb_tmp_suffix) with 5%nat in E.
+  pose proof tmp_suffix_ok.
   destruct (length_filename t i Hi), (length_filename t' i' Hi'); lia.
 Qed.
 
@@ -63,7 +68,7 @@ Lemma tmp_name_unparsed t i : wf_id i -> parse_id (lb_filename t i ++ lb_tmp_suf
 Proof.
   intro Hi. destruct (parse_id _) as [j|] eqn:E; [|reflexivity].
   apply parse_id_some in E. destruct E as [[L _] _]. rewrite app_length in L.
-  change (length lb_tmp_suffix) with 5%nat in L. destruct (length_filename t i Hi); lia.
+  pose proof tmp_suffix_ok. destruct (length_filename t i Hi); lia.
 Qed.
 
 Lemma tmp_entry_none t i t' : wf_id i -> entry_id t' (lb_tmp_path t i) = None.
